@@ -1116,7 +1116,9 @@ func lacks(f *family, nodes []node, u user, c callT) string {
 				b = 6
 			}
 
-			if flag&(os.O_TRUNC|os.O_APPEND) != 0 {
+			// O_TRUNC needs write permission whatever the access mode;
+			// O_APPEND and O_CREATE (on a file that exists) need nothing
+			if flag&os.O_TRUNC != 0 {
 				b |= 2
 			}
 
